@@ -31,41 +31,41 @@ Print Assumptions C17_read_slice.
 (* --- bytes --- every event handed to the consumer carries the NEXT bytes of the file, cut into records that
    each end a line or are a split piece at least B long: nothing dropped, nothing repeated, nothing reordered *)
 Theorem C17_bytes : forall B rpe, 0 < B -> forall s0, start_state s0 -> forall evs t1 recs t2,
-  no_replace evs -> trc code_reader_loops B rpe s0 evs = t1 ++ OHand recs :: t2 ->
+  no_replace evs -> trc code B rpe s0 evs = t1 ++ OHand recs :: t2 ->
   recs <> [] /\ Forall (good_rec B) recs /\
-  concat recs = seg (file (fin code_reader_loops B rpe s0 evs)) (hpos_of t1) (length (concat recs)).
-Proof. exact (hand_split code_reader_loops). Qed.
+  concat recs = seg (file (fin code B rpe s0 evs)) (hpos_of t1) (length (concat recs)).
+Proof. exact (hand_split code). Qed.
 Print Assumptions C17_bytes.
 
 (* the payloads handed over since the current run began, concatenated, are the file's bytes from where
    the run began up to the end of the last record handed over *)
 Theorem C17_bytes_run : forall B rpe, 0 < B -> forall s0, start_state s0 -> forall evs, no_replace evs ->
-  let m := marks_of (trc code_reader_loops B rpe s0 evs) in
-  t_base m + length (t_acc m) = t_hpos m /\ t_acc m = seg (file (fin code_reader_loops B rpe s0 evs)) (t_base m) (length (t_acc m)).
-Proof. exact (run_segment code_reader_loops). Qed.
+  let m := marks_of (trc code B rpe s0 evs) in
+  t_base m + length (t_acc m) = t_hpos m /\ t_acc m = seg (file (fin code B rpe s0 evs)) (t_base m) (length (t_acc m)).
+Proof. exact (run_segment code). Qed.
 Print Assumptions C17_bytes_run.
 
 (* without a restart: a prefix of the file *)
 Theorem C17_bytes_prefix : forall B rpe, 0 < B -> forall s0 evs, start_state s0 -> no_replace evs ->
   ~ In ERestart evs -> ~ In ESync evs ->
-  t_acc (marks_of (trc code_reader_loops B rpe s0 evs)) = firstn (hpos_of (trc code_reader_loops B rpe s0 evs)) (file (fin code_reader_loops B rpe s0 evs)).
-Proof. exact (prefix_run code_reader_loops). Qed.
+  t_acc (marks_of (trc code B rpe s0 evs)) = firstn (hpos_of (trc code B rpe s0 evs)) (file (fin code B rpe s0 evs)).
+Proof. exact (prefix_run code). Qed.
 Print Assumptions C17_bytes_prefix.
 
 (* at every moment every byte of the file is in exactly one place: confirmed | in the batch being
    collected or offered | in the partial line | not read yet; the partial line holds no '\n' *)
 Theorem C17_accounting : forall B rpe, 0 < B -> forall s0, start_state s0 -> forall evs, no_replace evs ->
-  let s := fin code_reader_loops B rpe s0 evs in
+  let s := fin code B rpe s0 evs in
   file s = firstn (woff s) (file s) ++ concat (recs s) ++ buf s ++ skipn (rpos s) (file s) /\
   Forall (good_rec B) (recs s) /\ ~ In nl (buf s) /\ rpos s <= length (file s).
-Proof. exact (accounting code_reader_loops). Qed.
+Proof. exact (accounting code). Qed.
 Print Assumptions C17_accounting.
 
 (* "up to the last complete line": whenever the worker goes to sleep at the end of the file, its batch is empty,
    everything has been read, and the file is exactly: the bytes handed over (all of them confirmed) followed by
    the reader's partial line, which holds no '\n' - nothing but an unterminated last line is outstanding.
    [lp] selects the reader (LineReader.read_line_turn): the statement holds for the code's reader ... *)
-Definition C17_up_to_last_line_statement (lp : bool) : Prop :=
+Definition C17_up_to_last_line_statement (lp : variant) : Prop :=
   forall B rpe, 0 < B -> forall s0, start_state s0 -> forall evs, no_replace evs ->
   let s := fin lp B rpe s0 evs in let s' := fst (step lp B rpe s ERead) in
   ph s = PRead -> forall p o, snd (step lp B rpe s ERead) = OSleep p :: o ->
@@ -73,17 +73,17 @@ Definition C17_up_to_last_line_statement (lp : bool) : Prop :=
   file s' = firstn (hpos_of (trc lp B rpe s0 evs)) (file s') ++ buf s' /\
   hpos_of (trc lp B rpe s0 evs) + length (buf s') = length (file s') /\
   conf_of (trc lp B rpe s0 evs) = hpos_of (trc lp B rpe s0 evs).
-Theorem C17_up_to_last_line : C17_up_to_last_line_statement code_reader_loops.
+Theorem C17_up_to_last_line : C17_up_to_last_line_statement code.
 Proof.
   intros B rpe HB s0 S0 evs NR s s' P p o H.
-  pose proof (sleep_kind code_reader_loops B rpe s p o eq_refl H) as ->.
-  exact (eof_sleep code_reader_loops B rpe HB s0 S0 evs o NR P H).
+  pose proof (sleep_kind code B rpe s p o eq_refl H) as ->.
+  exact (eof_sleep code B rpe HB s0 S0 evs o NR P H).
 Qed.
 Print Assumptions C17_up_to_last_line.
 (* ... and is FALSE of the reader the code had before the repair (readLine looped in 200 ms sleeps while a
    partial line was pending, so the worker could not flush): "a\nb" with EventMaxRecords 2 - the worker sleeps
    on "b" while the complete line "a\n" sits in its batch, handed over to nobody *)
-Theorem C17_up_to_last_line_looping_reader_refuted : ~ C17_up_to_last_line_statement true.
+Theorem C17_up_to_last_line_looping_reader_refuted : ~ C17_up_to_last_line_statement looping_reader.
 Proof.
   intros H. specialize (H 16 2 (Nat.lt_0_succ 15) (init [x61; x0a; x62]) (start_init _) [ERead]).
   assert (NR : no_replace [ERead]) by (intros b c [F|[]]; discriminate).
@@ -94,14 +94,14 @@ Print Assumptions C17_up_to_last_line_looping_reader_refuted.
 (* so, when the worker sleeps at the end of a file that is empty or ends in '\n', the whole file has been handed
    over and confirmed *)
 Theorem C17_idle_complete : forall B rpe, 0 < B -> forall s0, start_state s0 -> forall evs p o, no_replace evs ->
-  let s := fin code_reader_loops B rpe s0 evs in
-  ph s = PRead -> snd (step code_reader_loops B rpe s ERead) = OSleep p :: o ->
+  let s := fin code B rpe s0 evs in
+  ph s = PRead -> snd (step code B rpe s ERead) = OSleep p :: o ->
   file s = [] \/ (exists pre, file s = pre ++ [nl]) ->
-  hpos_of (trc code_reader_loops B rpe s0 evs) = length (file s) /\ conf_of (trc code_reader_loops B rpe s0 evs) = length (file s).
+  hpos_of (trc code B rpe s0 evs) = length (file s) /\ conf_of (trc code B rpe s0 evs) = length (file s).
 Proof.
   intros B rpe HB s0 S0 evs p o NR s P H.
-  pose proof (sleep_kind code_reader_loops B rpe s p o eq_refl H) as ->.
-  exact (idle_complete code_reader_loops B rpe HB s0 S0 evs o NR P H).
+  pose proof (sleep_kind code B rpe s p o eq_refl H) as ->.
+  exact (idle_complete code B rpe HB s0 S0 evs o NR P H).
 Qed.
 Print Assumptions C17_idle_complete.
 
@@ -109,14 +109,14 @@ Print Assumptions C17_idle_complete.
    offset written to scanner.json is always where the run began or the end of an event whose Confirm()
    returned true, and never beyond the last confirmed event *)
 Theorem C17_offset : forall B rpe, 0 < B -> forall s0, start_state s0 -> forall evs, no_replace evs ->
-  (forall t1 off t2, trc code_reader_loops B rpe s0 evs = t1 ++ OOffset off :: t2 -> off = conf_of t1) /\
-  (forall t1 off lss t2, trc code_reader_loops B rpe s0 evs = t1 ++ OPersisted off lss :: t2 ->
+  (forall t1 off t2, trc code B rpe s0 evs = t1 ++ OOffset off :: t2 -> off = conf_of t1) /\
+  (forall t1 off lss t2, trc code B rpe s0 evs = t1 ++ OPersisted off lss :: t2 ->
      off <= conf_of t1 /\
      (off = t_base (marks_of t1) \/ exists u1 u2, t1 = u1 ++ OConf true :: u2 /\ off = hpos_of u1)).
 Proof.
   intros B rpe HB s0 S0 evs NR. split.
-  - intros t1 off t2 H. exact (offset_split code_reader_loops B rpe HB s0 S0 evs t1 off t2 NR H).
-  - intros t1 off lss t2 H. destruct (persisted_split code_reader_loops B rpe HB s0 S0 evs t1 off lss t2 NR H) as [A1 A2].
+  - intros t1 off t2 H. exact (offset_split code B rpe HB s0 S0 evs t1 off t2 NR H).
+  - intros t1 off lss t2 H. destruct (persisted_split code B rpe HB s0 S0 evs t1 off lss t2 NR H) as [A1 A2].
     split; [exact A2|exact (ends_spec t1 off A1)].
 Qed.
 Print Assumptions C17_offset.
@@ -125,8 +125,8 @@ Print Assumptions C17_offset.
    scanner.json, which is never beyond the last confirmed byte: nothing is skipped, and what is re-sent is
    at most what was confirmed after that write *)
 Theorem C17_restart : forall B rpe, 0 < B -> forall s0, start_state s0 -> forall evs t1 p t2, no_replace evs ->
-  trc code_reader_loops B rpe s0 evs = t1 ++ ORestart p :: t2 -> p = pers_of t1 /\ p <= conf_of t1.
-Proof. exact (restart_split code_reader_loops). Qed.
+  trc code B rpe s0 evs = t1 ++ ORestart p :: t2 -> p = pers_of t1 /\ p <= conf_of t1.
+Proof. exact (restart_split code). Qed.
 Print Assumptions C17_restart.
 
 (* graceful stop: a state write at any moment that does not fall between a confirmation hand-shake and the
@@ -134,20 +134,20 @@ Print Assumptions C17_restart.
    sleep, a send or waitConfirm), followed by a restart, resumes EXACTLY at the end of the last confirmed
    event: no confirmed byte is re-sent, none skipped *)
 Theorem C17_restart_graceful_partial : forall B rpe, 0 < B -> forall s0, start_state s0 -> forall evs, no_replace evs ->
-  let s := fin code_reader_loops B rpe s0 evs in (forall e, ph s <> PConf e) ->
-  let c := conf_of (trc code_reader_loops B rpe s0 evs) in
-  snd (run code_reader_loops B rpe s [EPersist; ERestart]) = [OPersisted c (d_lss (dsc s)); ORestart c] /\
-  woff (fst (run code_reader_loops B rpe s [EPersist; ERestart])) = c.
-Proof. exact (graceful code_reader_loops). Qed.
+  let s := fin code B rpe s0 evs in (forall e, ph s <> PConf e) ->
+  let c := conf_of (trc code B rpe s0 evs) in
+  snd (run code B rpe s [EPersist; ERestart]) = [OPersisted c (d_lss (dsc s)); ORestart c] /\
+  woff (fst (run code B rpe s [EPersist; ERestart])) = c.
+Proof. exact (graceful code). Qed.
 Print Assumptions C17_restart_graceful_partial.
 (* the unrestricted statement is false of the code: the persister's last write is not ordered after the
    worker's setOffset; a write between Confirm() returning true and setOffset makes the restart re-send the
    event that was just confirmed *)
 Definition C17_restart_graceful_statement : Prop :=
   forall B rpe, 0 < B -> forall s0, start_state s0 -> forall evs, no_replace evs ->
-  let s := fin code_reader_loops B rpe s0 evs in
-  exists lss, snd (run code_reader_loops B rpe s [EPersist; ERestart]) =
-              [OPersisted (conf_of (trc code_reader_loops B rpe s0 evs)) lss; ORestart (conf_of (trc code_reader_loops B rpe s0 evs))].
+  let s := fin code B rpe s0 evs in
+  exists lss, snd (run code B rpe s [EPersist; ERestart]) =
+              [OPersisted (conf_of (trc code B rpe s0 evs)) lss; ORestart (conf_of (trc code B rpe s0 evs))].
 Theorem C17_restart_graceful_refuted : ~ C17_restart_graceful_statement.
 Proof.
   intros H. specialize (H 16 1 (Nat.lt_0_succ 15) (init [x61; x0a]) (start_init _) [ERead; ETake; EConfirm]).
@@ -161,21 +161,21 @@ Print Assumptions C17_restart_graceful_refuted.
    by a new worker from offset 0, and the scanner is again in a start state: every theorem above holds for the
    new file from its beginning *)
 Theorem C17_rotate : forall B rpe, 0 < B -> forall s0 evs id c, start_state s0 -> no_replace evs ->
-  let s := fin code_reader_loops B rpe s0 evs in
+  let s := fin code B rpe s0 evs in
   id <> fid s -> (forall d, persisted s = Some d -> d_id d <> id) ->
-  (let r := run code_reader_loops B rpe s [EReplace id c; ERestart] in snd r = [ORestart 0] /\ start_state (fst r) /\ file (fst r) = c) /\
-  (let r := run code_reader_loops B rpe s [EReplace id c; ESync] in snd r = [OFresh 0] /\ start_state (fst r) /\ file (fst r) = c).
-Proof. exact (rotate_new code_reader_loops). Qed.
+  (let r := run code B rpe s [EReplace id c; ERestart] in snd r = [ORestart 0] /\ start_state (fst r) /\ file (fst r) = c) /\
+  (let r := run code B rpe s [EReplace id c; ESync] in snd r = [OFresh 0] /\ start_state (fst r) /\ file (fst r) = c).
+Proof. exact (rotate_new code). Qed.
 Print Assumptions C17_rotate.
 
 (* whatever its identity (truncated and rewritten in place, or the inode re-used): a file shorter than what
    had been read or seen is read from offset 0 at the restart *)
 Theorem C17_rotate_shrunk : forall B rpe, 0 < B -> forall s0 evs id c d, start_state s0 -> no_replace evs ->
-  let s := fin code_reader_loops B rpe s0 evs in
+  let s := fin code B rpe s0 evs in
   persisted s = Some d -> length c < d_lss d \/ length c < d_off d ->
-  let r := run code_reader_loops B rpe s [EReplace id c; ERestart] in
+  let r := run code B rpe s [EReplace id c; ERestart] in
   snd r = [ORestart 0] /\ wfile (fst r) = c /\ rpos (fst r) = 0 /\ woff (fst r) = 0 /\ ph (fst r) = PRead.
-Proof. exact (rotate_shrunk code_reader_loops). Qed.
+Proof. exact (rotate_shrunk code). Qed.
 Print Assumptions C17_rotate_shrunk.
 
 (* the full statement - whatever replaces the file, it is read from its beginning - is false of the code:
@@ -183,7 +183,7 @@ Print Assumptions C17_rotate_shrunk.
    place) and is at least as long as the saved offset is continued at that offset *)
 Definition C17_rotate_statement : Prop :=
   forall B rpe, 0 < B -> forall s0, start_state s0 -> forall evs id c, no_replace evs ->
-  snd (run code_reader_loops B rpe (fin code_reader_loops B rpe s0 evs) [EReplace id c; ERestart]) = [ORestart 0].
+  snd (run code B rpe (fin code B rpe s0 evs) [EReplace id c; ERestart]) = [ORestart 0].
 Theorem C17_rotate_same_inode_refuted : ~ C17_rotate_statement.
 Proof.
   intros H.
@@ -194,38 +194,106 @@ Proof.
 Qed.
 Print Assumptions C17_rotate_same_inode_refuted.
 
+(* --- rotation, the old file --- a running worker whose file is rotated away (or removed) is told to stop at EOF
+   (EStopOnEof: worker.stopOnEOF, called by the sync that notices it). F0 is the file as it was at that moment.
+   Whatever happens afterwards to this worker (appends to the old file through a descriptor the writer still holds,
+   reads, a consumer that takes and confirms - or stalls -, persist ticks, a stop), if it returns on its own, i.e.
+   not because the collector is being stopped, then every complete line of F0 has been handed over AND confirmed:
+   what is left of F0 after the last confirmed byte holds no '\n'.  [vr] selects the variant of worker.run. *)
+Definition C17_drain_statement (vr : variant) : Prop :=
+  forall B rpe, 0 < B -> forall s0, start_state s0 -> forall evs1 evs2,
+  no_replace evs1 -> no_replace evs2 -> same_worker evs2 ->
+  let s1 := fin vr B rpe s0 evs1 in until_eof s1 = false -> ph s1 <> PDone ->
+  let evs := evs1 ++ EStopOnEof :: evs2 in
+  ph (fin vr B rpe s0 evs) = PDone -> stopping (fin vr B rpe s0 evs) = false ->
+  ~ In nl (skipn (conf_of (trc vr B rpe s0 evs)) (file s1)) /\
+  firstn (length (file s1)) (file (fin vr B rpe s0 evs)) = file s1.
+Theorem C17_drain : C17_drain_statement code.
+Proof. intros B rpe HB s0 S0 evs1 evs2. exact (drain code B rpe HB s0 S0 evs1 evs2 eq_refl). Qed.
+Print Assumptions C17_drain.
+(* ... and is FALSE of worker.run as it was (the stop-at-EOF state loaded after sendOrSleep): "a\n" shipped and
+   confirmed, the worker sleeps at EOF; "b\n" is appended, the file is rotated away and the sync tells the worker
+   to stop at EOF during that sleep; it wakes up and returns on the EOF it had found before: "b\n" is never read *)
+Theorem C17_drain_stale_check_refuted : ~ C17_drain_statement stale_eof_check.
+Proof.
+  intros H.
+  specialize (H 16 2 (Nat.lt_0_succ 15) (init [x61; x0a]) (start_init _)
+                [ERead; ERead; ETake; EConfirm; ESetOff; ERead; EAppend [x62; x0a]] [EWake]).
+  assert (NR1 : no_replace [ERead; ERead; ETake; EConfirm; ESetOff; ERead; EAppend [x62; x0a]]).
+  { intros b c F. repeat (destruct F as [F|F]; [discriminate|]). exact F. }
+  assert (NR2 : no_replace [EWake]) by (intros b c [F|[]]; discriminate).
+  assert (SW : same_worker [EWake]) by (split; intros [F|[]]; discriminate).
+  assert (ND : PSleep <> PDone) by discriminate.
+  destruct (H NR1 NR2 SW eq_refl ND eq_refl eq_refl) as [F _]. apply F. vm_compute. right. left. reflexivity.
+Qed.
+Print Assumptions C17_drain_stale_check_refuted.
+
+(* --- the consumer --- with collector.Run as the consumer (an event is confirmed only by its Write loop: ECollect
+   with the outcome of each Write call; no Confirm() of its own), everything below the last confirmed offset - hence
+   below every Offset ever written to scanner.json - has been stored by a Write that succeeded (stored_of: the
+   largest n such that successful writes cover the bytes [0, n) of the file).  [vr] selects the variant of Run. *)
+Definition C17_stored_statement (vr : variant) : Prop :=
+  forall B rpe, 0 < B -> forall s0, start_state s0 -> forall evs, no_replace evs -> collector_only evs ->
+  conf_of (trc vr B rpe s0 evs) <= stored_of (trc vr B rpe s0 evs) /\
+  pers_of (trc vr B rpe s0 evs) <= stored_of (trc vr B rpe s0 evs).
+Theorem C17_stored : C17_stored_statement code.
+Proof. intros B rpe HB s0 S0 evs. exact (stored_prefix code B rpe HB s0 S0 evs eq_refl). Qed.
+Print Assumptions C17_stored.
+(* ... and is FALSE if Run confirms an event whose write the server failed (wr.Err != nil without `continue`):
+   the offset is advanced and saved past bytes the server never stored *)
+Theorem C17_stored_confirm_on_server_error_refuted : ~ C17_stored_statement confirm_on_server_error.
+Proof.
+  intros H.
+  specialize (H 16 1 (Nat.lt_0_succ 15) (init [x61; x0a]) (start_init _) [ERead; ETake; ECollect WSrv; ESetOff; EPersist]).
+  assert (NR : no_replace [ERead; ETake; ECollect WSrv; ESetOff; EPersist]).
+  { intros b c F. repeat (destruct F as [F|F]; [discriminate|]). exact F. }
+  assert (CO : collector_only [ERead; ETake; ECollect WSrv; ESetOff; EPersist]).
+  { intros F. repeat (destruct F as [F|F]; [discriminate|]). exact F. }
+  destruct (H NR CO) as [_ F]. vm_compute in F. lia.
+Qed.
+Print Assumptions C17_stored_confirm_on_server_error_refuted.
+
 (* the scheduling unit of the correspondence check (the worker runs from one blocking point to the next)
    is a run of single ReadSlice turns, i.e. one of the schedules the theorems quantify over *)
-Theorem C17_run_reads : forall B rpe fuel s, exists n, run_reads code_reader_loops B rpe fuel s = run code_reader_loops B rpe s (repeat ERead n).
-Proof. exact (run_reads_is_run code_reader_loops). Qed.
+Theorem C17_run_reads : forall B rpe fuel s, exists n, run_reads code B rpe fuel s = run code B rpe s (repeat ERead n).
+Proof. exact (run_reads_is_run code). Qed.
 Print Assumptions C17_run_reads.
 
 (* the model never leaves its own vocabulary *)
 Theorem C17_vocabulary : forall B rpe, 0 < B -> forall s0, start_state s0 -> forall evs n, no_replace evs ->
-  ~ In (OOther n) (trc code_reader_loops B rpe s0 evs).
-Proof. exact (other_never code_reader_loops). Qed.
+  ~ In (OOther n) (trc code B rpe s0 evs).
+Proof. exact (other_never code). Qed.
 Print Assumptions C17_vocabulary.
 
 (* ---- non-vacuity: start states exist; the code's reader is the one that returns at EOF; a schedule with a
    split line, an EOF inside a line (the complete line before it is handed over, then the worker sleeps on the
    partial line alone), a persist, a crash and the re-send after the restart ---- *)
-Example ex_code_reader : code_reader_loops = false.
+Example ex_code : code = mkVar false false false.
 Proof. reflexivity. Qed.
 Example ex_start : forall content, start_state (init content).
 Proof. exact start_init. Qed.
 Definition ex_file : bytes := [x61; x0a; x62; x62; x62; x62; x62; x62; x62; x62; x62; x62; x62; x62; x62; x62; x62; x62; x62].
 Definition ex_evs : list ev :=
   [ERead; ERead; ETake; EAppend [x63; x0a; x64]; EConfirm; ESetOff; EPersist; ERead; ERead; ERead; ETake; EConfirm; ESetOff;
-   ERead; EAppend [x0a]; ERead; ERead; ETake; ERestart; ERead; ERead; ETake].
+   ERead; EAppend [x0a]; EWake; ERead; ERead; ETake; ERestart; ERead; ERead; ETake].
 Definition b16 : bytes := [x62; x62; x62; x62; x62; x62; x62; x62; x62; x62; x62; x62; x62; x62; x62; x62].
-Example ex_trace : trc code_reader_loops 16 2 (init ex_file) ex_evs =
+Example ex_trace : trc code 16 2 (init ex_file) ex_evs =
   [OHand [[x61; x0a]; b16]; OConf true; OOffset 18; OPersisted 18 19; OHand [[x62; x63; x0a]]; OConf true; OOffset 21;
    OSleep false; OHand [[x64; x0a]]; ORestart 18; OHand [[x62; x63; x0a]; [x64; x0a]]].
 Proof. vm_compute. reflexivity. Qed.
 (* the same schedule with the reader that loops: "bc\n" waits in the worker behind the partial line "d" *)
-Example ex_trace_looping_reader : trc true 16 2 (init ex_file) ex_evs =
+Example ex_trace_looping_reader : trc looping_reader 16 2 (init ex_file) ex_evs =
   [OHand [[x61; x0a]; b16]; OConf true; OOffset 18; OPersisted 18 19; OSleep true; OSleep true; OConf false; OSleep true;
    OHand [[x62; x63; x0a]; [x64; x0a]]; ORestart 18; OHand [[x62; x63; x0a]; [x64; x0a]]].
 Proof. vm_compute. reflexivity. Qed.
-Example ex_marks : marks_of (trc code_reader_loops 16 2 (init ex_file) ex_evs) = mkT 23 18 [18] 18 18 [x62; x63; x0a; x64; x0a].
+(* collector.Run as the consumer: a write the server fails, then the same event written again and stored *)
+Example ex_collect : let tr := trc code 16 1 (init [x61; x0a; x62; x0a]) [ERead; ETake; ECollect WSrv; ECollect WComm; ECollect WOk; ESetOff; EPersist; ERead; ETake] in
+  tr = [OHand [[x61; x0a]]; OWrite false; OWrite false; OWrite true; OConf true; OOffset 2; OPersisted 2 4; OHand [[x62; x0a]]] /\
+  stored_of tr = 2 /\ hpos_of tr = 4.
+Proof. vm_compute. repeat split. Qed.
+(* a worker told to stop at EOF while it waits for a confirmation drains the rest of its file, a partial batch included *)
+Example ex_drain : trc code 16 2 (init [x61; x0a; x62; x0a; x63; x0a]) [ERead; ERead; ETake; EStopOnEof; EConfirm; ESetOff; ERead; ERead; ETake; EConfirm; ESetOff] =
+  [OHand [[x61; x0a]; [x62; x0a]]; OConf true; OOffset 4; OHand [[x63; x0a]]; OConf true; OOffset 6; OExit].
+Proof. vm_compute. reflexivity. Qed.
+Example ex_marks : marks_of (trc code 16 2 (init ex_file) ex_evs) = mkT 23 18 [18] 18 18 [x62; x63; x0a; x64; x0a].
 Proof. vm_compute. reflexivity. Qed.
